@@ -10,23 +10,7 @@ use serde_json::{json, Value};
 
 use crate::bits::fnv;
 
-#[derive(Clone, Copy, PartialEq, Eq, Debug)]
-pub enum Tier {
-    Quick,
-    Thorough,
-}
-
-impl Tier {
-    pub fn name(self) -> &'static str {
-        match self {
-            Tier::Quick => "quick",
-            Tier::Thorough => "thorough",
-        }
-    }
-    pub fn thorough(self) -> bool {
-        self == Tier::Thorough
-    }
-}
+pub use crate::gen::Tier;
 
 pub fn verif_root() -> PathBuf {
     std::env::var("VERIF_ROOT").map(PathBuf::from).unwrap_or_else(|_| PathBuf::from("/verif"))
